@@ -6,7 +6,7 @@ from __future__ import annotations
 import ast
 
 from ..astutil import attr_chain, call_method, enum_member, kwarg, short, src, ancestors
-from ..linear import Normaliser, Sym
+from ..linear import Normaliser, Sym, relation, same_relation
 from ..model import walk_local, AnalysisError
 from ..report import Ctx
 from .typecase import TypeCase, events_matching
@@ -373,3 +373,81 @@ def interleave_rule(ctx: Ctx, rule: str = "INTERLEAVE") -> None:
         ctx.check(okp and isinstance(d, ast.Constant) and d.value is True, rule, f"{q}: kinds, standard length and the imputation flag (default True) are passed through",
                   function=q, construct="interleaving does not pass its arguments through to the pairing table, or imputation is off by default",
                   message=short(inner, 120), file=fi.file, node=inner)
+
+
+def bisect_rule(ctx: Ctx, rule: str = "BISECT") -> int:
+    """binary_insort: the sorted insertion every `add_message` of an absolute sequence goes through.  The roles are
+    taken from the code (low/high bound = the two names compared in the `while` test, probe = the name indexed in the
+    time comparison); with the roles found, each piece of the upper-bound bisection is compared with what the loop
+    invariant `all left of lo are <= new < all from hi on` needs.  An implementation through the `bisect` module is
+    accepted as such; any other shape is reported undetermined."""
+    p = ctx.p
+    fi = p.func("binary_insort")
+    ctx.analysed(fi)
+    q = fi.qualname
+    fn = fi.node
+    if any(isinstance(c, ast.Call) and (call_method(c)[1] or getattr(c.func, "id", "")) in ("insort", "insort_right", "bisect", "bisect_right")
+           for c in ast.walk(fn)):
+        ctx.ok(rule, f"{q}: delegates to the standard bisect module", "library upper-bound insertion")
+        return 1
+    loop = next((s for s in fn.body if isinstance(s, ast.While)), None)
+    coll, new = fi.params[0], fi.params[1]
+    if loop is None or not (isinstance(loop.test, ast.Compare) and len(loop.test.ops) == 1 and isinstance(loop.test.left, ast.Name)
+                            and isinstance(loop.test.comparators[0], ast.Name)):
+        ctx.undetermined(rule, f"{q}: bisection loop", "no `while lo < hi` loop over two bounds: idiom not recognised, not judged")
+        return 0
+    lo, hi = loop.test.left.id, loop.test.comparators[0].id
+    n = 0
+
+    def chk(ok, inst, construct, message, node):
+        nonlocal n
+        n += 1
+        ctx.check(ok, rule, f"{q}: {inst}", function=q, construct=construct, message=message, file=fi.file, node=node)
+    chk(isinstance(loop.test.ops[0], ast.Lt), f"the search continues while `{lo} < {hi}`", "bisection loop test is not `low < high`",
+        f"`{short(loop.test)}`: with `<=` the probe runs past the end, with another relation the search stops early", loop)
+    pre = [s for s in fn.body if s.lineno < loop.lineno and isinstance(s, ast.Assign) and isinstance(s.targets[0], ast.Name)]
+    ilo = [s for s in pre if s.targets[0].id == lo]
+    ihi = [s for s in pre if s.targets[0].id == hi]
+    chk(len(ilo) == 1 and isinstance(ilo[0].value, ast.Constant) and ilo[0].value.value == 0, f"`{lo}` starts at 0",
+        "lower bound of the bisection does not start at 0", "a message earlier than everything present could not be placed first", ilo[0] if ilo else loop)
+    chk(len(ihi) == 1 and src(ihi[0].value) == f"len({coll})", f"`{hi}` starts at len({coll})",
+        "upper bound of the bisection does not start at the length of the list", "a message later than everything present could not be placed last",
+        ihi[0] if ihi else loop)
+    # probe
+    nz = Normaliser()
+    mids = [s for s in loop.body if isinstance(s, ast.Assign) and isinstance(s.targets[0], ast.Name)]
+    test = next((s for s in loop.body if isinstance(s, ast.If)), None)
+    if not mids or test is None:
+        ctx.undetermined(rule, f"{q}: probe", "probe assignment / decision not recognised: not judged")
+        return n
+    mid = mids[0].targets[0].id
+    want = Sym.atom(f"floordiv({(Sym.atom(lo) + Sym.atom(hi)).canon()},2)")
+    got = nz.norm(mids[0].value)
+    alt = Sym.atom(lo) + Sym.atom(f"floordiv({(Sym.atom(hi) - Sym.atom(lo)).canon()},2)")
+    chk(got == want or got == alt, f"probe `{short(mids[0])}` is the midpoint", "probe of the bisection is not the floor midpoint of the bounds",
+        f"normal form `{got.canon()}`", mids[0])
+    # decision: new.time < coll[mid].time -> hi = mid ; else lo = mid + 1
+    rel = relation(test.test, nz)
+    left_form = Sym.atom(f"{new}.time") - Sym.atom(f"{coll}[{mid}].time")
+    goes_left = same_relation(rel, left_form, "<")
+    goes_right = same_relation(rel, left_form, ">=")
+    if not (goes_left or goes_right):
+        chk(False, f"decision `{short(test.test)}`", "bisection decision is not `new.time < probe.time` (or its negation)",
+            f"`{short(test.test)}`: equal times must go right (insertion after equal times), earlier times left", test)
+        return n
+    n += 1
+    ctx.ok(rule, f"{q}: decision `{short(test.test)}`", "new.time < probe.time decides the half")
+    left_blk, right_blk = (test.body, test.orelse) if goes_left else (test.orelse, test.body)
+
+    def single_assign(blk):
+        return blk[0] if len(blk) == 1 and isinstance(blk[0], ast.Assign) and isinstance(blk[0].targets[0], ast.Name) else None
+    la, ra = single_assign(left_blk), single_assign(right_blk)
+    chk(la is not None and la.targets[0].id == hi and nz.norm(la.value) == Sym.atom(mid), f"earlier than the probe: `{hi} = {mid}`",
+        "left half of the bisection does not set high = probe", short(la) if la else "no single assignment", la or test)
+    chk(ra is not None and ra.targets[0].id == lo and nz.norm(ra.value) == Sym.atom(mid) + Sym.const(1), f"not earlier than the probe: `{lo} = {mid} + 1`",
+        "right half of the bisection does not set low = probe + 1", short(ra) if ra else "no single assignment", ra or test)
+    ins = [c for s in fn.body if s.lineno > loop.end_lineno for c in ast.walk(s) if isinstance(c, ast.Call) and call_method(c)[1] == "insert"]
+    chk(len(ins) == 1 and src(call_method(ins[0])[0]) == coll and len(ins[0].args) == 2 and src(ins[0].args[0]) == lo and src(ins[0].args[1]) == new,
+        f"the message is inserted at `{lo}`", "the message is not inserted into the list at the found position",
+        f"{[short(c) for c in ins]}", ins[0] if ins else fn)
+    return n
